@@ -667,14 +667,14 @@ async fn pump_writer(mut wr: OwnedWriteHalf, link: Arc<LinkCtl>, d: usize, cfg: 
 	let ctl = link.dirs[d].clone();
 	let mut rng = Rng::new(cfg.seed ^ 0x3717e);
 	let why = loop {
-		if rng.below(1000) < cfg.coalesce_per_mille {
+		if rng.below(1000) < cfg.coalesce_per_mille && !ctl.fault_applied.load(SO) {
 			tokio::time::sleep(Duration::from_micros(rng.range(200, 3000))).await;
 		}
 		let chunk = loop {
 			{
 				let mut q = lock(&ctl.queue);
 				if q.len > 0 {
-					let k = chunk_size(&mut rng, cfg.chunk_style);
+					let k = if ctl.fault_applied.load(SO) { 65536 } else { chunk_size(&mut rng, cfg.chunk_style) };
 					break Some(q.take(k));
 				}
 				if q.eof {
@@ -693,7 +693,7 @@ async fn pump_writer(mut wr: OwnedWriteHalf, link: Arc<LinkCtl>, d: usize, cfg: 
 		}
 		ctl.written_bytes.fetch_add(chunk.len() as u64, SO);
 		ctl.chunks.fetch_add(1, SO);
-		if rng.below(1000) < cfg.sleep_per_mille {
+		if rng.below(1000) < cfg.sleep_per_mille && !ctl.fault_applied.load(SO) {
 			tokio::time::sleep(Duration::from_micros(rng.range(0, 3000))).await;
 		}
 	};
@@ -721,7 +721,7 @@ async fn supervise(mut rx: mpsc::UnboundedReceiver<LinkEv>, handles: Vec<JoinHan
 struct LinkCfg {
 	/// requested SO_SNDBUF/SO_RCVBUF for: initiator socket, proxy listener (initiator side), proxy
 	/// socket towards the responder, responder's listener. None: kernel default (autotuned).
-	bufs: [Option<u32>; 4],
+	bufs: [Option<(u32, u32)>; 4],
 	dirs: [DirCfg; 2],
 }
 
@@ -759,12 +759,12 @@ impl Link {
 	}
 }
 
-fn sock(bufs: Option<u32>) -> std::io::Result<(TcpSocket, Option<(u64, u64)>)> {
+fn sock(bufs: Option<(u32, u32)>) -> std::io::Result<(TcpSocket, Option<(u64, u64)>)> {
 	let s = TcpSocket::new_v4()?;
 	let mut sizes = None;
-	if let Some(b) = bufs {
-		s.set_send_buffer_size(b)?;
-		s.set_recv_buffer_size(b)?;
+	if let Some((snd, rcv)) = bufs {
+		s.set_send_buffer_size(snd)?;
+		s.set_recv_buffer_size(rcv)?;
 		sizes = Some((s.send_buffer_size()? as u64, s.recv_buffer_size()? as u64));
 	}
 	Ok((s, sizes))
@@ -893,6 +893,14 @@ struct World {
 	targets: BTreeMap<(usize, usize, u32), usize>,
 }
 
+fn dbg(what: &str) {
+	static T0: Mutex<Option<Instant>> = Mutex::new(None);
+	if std::env::var("VERIF_C15N_DEBUG").is_ok() {
+		let mut g = lock(&T0);
+		let t0 = *g.get_or_insert_with(Instant::now);
+		eprintln!("[{:>7} ms] {}", t0.elapsed().as_millis(), what);
+	}
+}
 fn tick1() -> tokio::time::Sleep {
 	tokio::time::sleep(Duration::from_millis(1))
 }
@@ -959,9 +967,27 @@ impl World {
 				}
 			}
 			if t0.elapsed() >= p.watchdog {
+				for &li in live {
+					self.dump(li);
+				}
 				return Wait::Watchdog;
 			}
+			if std::env::var("VERIF_C15N_DEBUG").is_ok() && t0.elapsed().as_millis() % 2000 == 0 {
+				for &li in live {
+					self.dump(li);
+				}
+			}
 			tick1().await;
+		}
+	}
+	fn dump(&self, li: usize) {
+		if std::env::var("VERIF_C15N_DEBUG").is_err() {
+			return;
+		}
+		let l = &self.links[li];
+		for k in 0..2 {
+			let c = &l.ctl.dirs[k];
+			dbg(&format!("link {} dir {} (node {} -> node {}): (queued, released, delivered) {:?} read {} out {} written {} queue {} stall_active {} stalls {} sender releasable {} listed {}", li, k, l.sender(k), l.receiver(k), self.progress(li, k), c.read_bytes.load(SO), c.out_bytes.load(SO), c.written_bytes.load(SO), lock(&c.queue).len, c.stall_active.load(SO), c.stalls_started.load(SO), self.nodes[l.sender(k)].sh.has_releasable(), self.nodes[l.sender(k)].pm.list_peers().len()));
 		}
 	}
 	/// Call process_events on a node until nothing releasable is left (bounded).
@@ -1098,9 +1124,12 @@ fn gen_dir_cfg(rng: &mut Rng, vol: u64, n_msgs: usize, stalls_wanted: bool) -> D
 fn gen_link_cfg(rng: &mut Rng, vols: [u64; 2], counts: [usize; 2], explicit_bufs: bool, stall_mode: u8) -> LinkCfg {
 	let mut bufs = [None; 4];
 	if explicit_bufs || rng.chance(2, 3) {
-		let class: &[u32] = if explicit_bufs { &[4096, 8192, 16384] } else { &[4096, 8192, 16384, 65536] };
+		// Receive buffers stay >= 16 KiB (requested): with smaller ones loopback TCP itself crawls
+		// (window far below the 64 KiB MSS), which only slows the harness down.
+		let snd: &[u32] = if explicit_bufs { &[4096, 8192, 16384] } else { &[4096, 8192, 16384, 65536] };
+		let rcv: &[u32] = if explicit_bufs { &[16384] } else { &[16384, 32768, 65536] };
 		for b in bufs.iter_mut() {
-			*b = Some(*rng.pick(class));
+			*b = Some((*rng.pick(snd), *rng.pick(rcv)));
 		}
 	}
 	// stall_mode: 0 none, 1 one direction, 2 both, 3 random
@@ -1186,6 +1215,7 @@ fn spawn_feeders(w: &mut World, traffic: &[(usize, usize, Vec<usize>)], rng: &mu
 }
 
 async fn stop_feeders(w: &World, hs: Vec<JoinHandle<()>>) {
+	dbg("stop feeders");
 	for n in &w.nodes {
 		n.sh.stop.store(true, SO);
 	}
@@ -1376,6 +1406,7 @@ async fn fault_flow(w: &mut World, cx: &mut Cx<'_>, li: usize, p: &Params, rescu
 /// The sockets of `li` are (being) closed: wait for the connection tasks, then N5. false: watchdog.
 async fn close_and_check(w: &mut World, cx: &mut Cx<'_>, li: usize, p: &Params, what: &str) -> bool {
 	let (ok, rounds) = w.wait_closed(li, p.watchdog, true).await;
+	dbg(&format!("link {} closed={} after {} tick rounds ({})", li, ok, rounds, w.links[li].ctl.first_close().unwrap_or_default()));
 	if rounds > 0 {
 		cx.rep.count("closed_socket_noticed_only_after_timer_ticks");
 	}
@@ -1432,7 +1463,10 @@ enum Flow {
 /// Wait for handshake / delivery on `live`, dealing with faults, stalls and watchdogs.
 async fn wait_h(w: &mut World, cx: &mut Cx<'_>, live: &mut Vec<usize>, handshake: bool, p: &Params, rescue: bool, what: &str) -> Flow {
 	loop {
-		match w.wait(live, handshake, p).await {
+		dbg(&format!("wait_h: {}", what));
+		let r = w.wait(live, handshake, p).await;
+		dbg(&format!("wait_h: {} -> {:?}", what, r));
+		match r {
 			Wait::Done => return Flow::Ok,
 			Wait::Panic => return Flow::Stop,
 			Wait::Watchdog => {
@@ -1548,13 +1582,14 @@ fn gen_traffic(rng: &mut Rng, links: &[(usize, usize)], kind: Kind, p: &Params, 
 	t
 }
 
-fn link_cfg_for(rng: &mut Rng, traffic: &[(usize, usize, Vec<usize>)], a: usize, b: usize, explicit: bool, stall_mode: u8) -> LinkCfg {
-	let find = |s: usize, r: usize| traffic.iter().find(|t| t.0 == s && t.1 == r).map(|t| (volume(&t.2), t.2.len())).unwrap_or((0, 0));
+fn link_cfg_for(rng: &mut Rng, traffic: &[&[(usize, usize, Vec<usize>)]], a: usize, b: usize, explicit: bool, stall_mode: u8) -> LinkCfg {
+	let find = |s: usize, r: usize| traffic.iter().flat_map(|t| t.iter()).filter(|t| t.0 == s && t.1 == r).fold((0u64, 0usize), |acc, t| (acc.0 + volume(&t.2), acc.1 + t.2.len()));
 	let (f, g) = (find(a, b), find(b, a));
 	gen_link_cfg(rng, [f.0 + 400, g.0 + 400], [f.1, g.1], explicit, stall_mode)
 }
 
 async fn teardown(w: &mut World, cx: &mut Cx<'_>, p: &Params) {
+	dbg("teardown");
 	for li in 0..w.links.len() {
 		if !w.links[li].ctl.closed.load(SO) {
 			w.kill(li);
@@ -1593,6 +1628,7 @@ async fn run_case(cx: &mut Cx<'_>, p: &Params, rng: &mut Rng, kind: Kind) {
 		}
 	}
 	let traffic = gen_traffic(rng, &pairs, kind, p, false);
+	let traffic2 = if matches!(kind, Kind::Ticks | Kind::Dup) || (kind != Kind::Long && kind != Kind::Reconnect && rng.chance(1, 4)) { gen_traffic(rng, &pairs, kind, p, true) } else { Vec::new() };
 	let with_fault = kind == Kind::Fault || (kind == Kind::Three && rng.chance(1, 2));
 	let fault = if with_fault {
 		let dir = rng.below(2) as usize;
@@ -1640,8 +1676,8 @@ async fn run_case(cx: &mut Cx<'_>, p: &Params, rng: &mut Rng, kind: Kind) {
 	let mut live: Vec<usize> = Vec::new();
 	for (k, &(a, b)) in pairs.iter().enumerate() {
 		let f = if k == 0 { fault.clone() } else { None };
-		let cfg = link_cfg_for(rng, &traffic, a, b, f.is_some() || kind == Kind::Bulk, stall_mode);
-		shape.u64(cfg.dirs[0].chunk_style as u64).u64(cfg.dirs[1].chunk_style as u64).u64(cfg.dirs[0].stalls.len() as u64).u64(cfg.dirs[1].stalls.len() as u64).u64(cfg.bufs[0].unwrap_or(0) as u64).u64((cfg.dirs[0].read_max as u64).min(5000));
+		let cfg = link_cfg_for(rng, &[&traffic, &traffic2], a, b, f.is_some() || kind == Kind::Bulk, stall_mode);
+		shape.u64(cfg.dirs[0].chunk_style as u64).u64(cfg.dirs[1].chunk_style as u64).u64(cfg.dirs[0].stalls.len() as u64).u64(cfg.dirs[1].stalls.len() as u64).u64(cfg.bufs[0].map(|b| b.0 + b.1).unwrap_or(0) as u64).u64((cfg.dirs[0].read_max as u64).min(5000));
 		if let Some(f) = &f {
 			shape.str(f.kind.name()).u64(f.dir as u64).u64((f.off / 64).min(40));
 		}
@@ -1663,7 +1699,8 @@ async fn run_case(cx: &mut Cx<'_>, p: &Params, rng: &mut Rng, kind: Kind) {
 	cx.desc = Json::obj().set("kind", format!("{:?}", kind)).set("nodes", n).set("release_caps", cap_desc.clone()).set("links", Json::Arr(link_desc)).set("traffic", Json::Arr(traffic.iter().map(|t| Json::obj().set("from", t.0).set("to", t.1).set("messages", t.2.len()).set("bytes", volume(&t.2))).collect()));
 	let rescue = n == 2;
 
-	let flow = run_flows(&mut w, cx, p, rng, kind, &pairs, &traffic, &mut live, rescue, &mut shape).await;
+	shape.u64(traffic2.len() as u64);
+	let flow = run_flows(&mut w, cx, p, rng, kind, &pairs, &traffic, &traffic2, &mut live, rescue, &mut shape).await;
 	let _ = flow;
 	teardown(&mut w, cx, p).await;
 	evaluate(&w, cx);
@@ -1676,7 +1713,7 @@ async fn run_case(cx: &mut Cx<'_>, p: &Params, rng: &mut Rng, kind: Kind) {
 }
 
 #[allow(clippy::too_many_arguments)]
-async fn run_flows(w: &mut World, cx: &mut Cx<'_>, p: &Params, rng: &mut Rng, kind: Kind, pairs: &[(usize, usize)], traffic: &[(usize, usize, Vec<usize>)], live: &mut Vec<usize>, rescue: bool, shape: &mut Fnv) -> Flow {
+async fn run_flows(w: &mut World, cx: &mut Cx<'_>, p: &Params, rng: &mut Rng, kind: Kind, pairs: &[(usize, usize)], traffic: &[(usize, usize, Vec<usize>)], traffic2: &[(usize, usize, Vec<usize>)], live: &mut Vec<usize>, rescue: bool, shape: &mut Fnv) -> Flow {
 	// ---- handshake (messages may already be queued: they must wait for peer_connected)
 	let early_queue = rng.chance(1, 3);
 	shape.u64(early_queue as u64);
@@ -1684,15 +1721,21 @@ async fn run_flows(w: &mut World, cx: &mut Cx<'_>, p: &Params, rng: &mut Rng, ki
 	if early_queue && kind != Kind::Reconnect && kind != Kind::Dup {
 		feeders = Some(spawn_feeders(w, traffic, rng));
 	}
-	match wait_h(w, cx, live, true, p, rescue, "waiting for the handshake").await {
-		Flow::Ok => {},
-		Flow::Faulted(li) => {
+	let mut faulted = None;
+	let mut hflow = wait_h(w, cx, live, true, p, rescue, "waiting for the handshake").await;
+	if let Flow::Faulted(li) = hflow {
+		faulted = Some(li);
+		hflow = if live.is_empty() { Flow::Ok } else { wait_h(w, cx, live, true, p, rescue, "waiting for the handshake of the other links").await };
+	}
+	match hflow {
+		Flow::Ok if live.is_empty() => {
 			if let Some(hs) = feeders.take() {
 				stop_feeders(w, hs).await;
 			}
-			return after_fault(w, cx, p, rng, li, live, rescue, shape).await;
+			return after_fault(w, cx, p, rng, faulted.unwrap(), live, rescue, shape).await;
 		},
-		Flow::Stop => {
+		Flow::Ok => {},
+		_ => {
 			if let Some(hs) = feeders.take() {
 				stop_feeders(w, hs).await;
 			}
@@ -1771,6 +1814,9 @@ async fn run_flows(w: &mut World, cx: &mut Cx<'_>, p: &Params, rng: &mut Rng, ki
 		Flow::Faulted(li) => return after_fault(w, cx, p, rng, li, live, rescue, shape).await,
 		Flow::Stop => return Flow::Stop,
 	}
+	if let Some(li) = faulted {
+		return after_fault(w, cx, p, rng, li, live, rescue, shape).await;
+	}
 	match kind {
 		Kind::Long => cx.rep.count("cases_long_two_rotations"),
 		Kind::Ticks => {
@@ -1825,10 +1871,8 @@ async fn run_flows(w: &mut World, cx: &mut Cx<'_>, p: &Params, rng: &mut Rng, ki
 		_ => {},
 	}
 	// ---- second traffic phase on the same connections
-	if matches!(kind, Kind::Ticks | Kind::Dup) || (kind != Kind::Long && rng.chance(1, 4)) {
-		shape.str("phase2");
-		let t2 = gen_traffic(rng, pairs, kind, p, true);
-		match traffic_phase(w, cx, p, rng, live, &t2, rescue).await {
+	if !traffic2.is_empty() {
+		match traffic_phase(w, cx, p, rng, live, traffic2, rescue).await {
 			Flow::Faulted(li) => return after_fault(w, cx, p, rng, li, live, rescue, shape).await,
 			x => return x,
 		}
@@ -1852,7 +1896,7 @@ async fn reconnect(w: &mut World, cx: &mut Cx<'_>, p: &Params, rng: &mut Rng, a:
 	bump_gen(w, a, b);
 	let (a, b) = if rng.chance(1, 2) { (a, b) } else { (b, a) };
 	let t2 = gen_traffic(rng, &[(a, b)], Kind::Plain, p, true);
-	let cfg = link_cfg_for(rng, &t2, a, b, false, 3);
+	let cfg = link_cfg_for(rng, &[&t2], a, b, false, 3);
 	match open_link(&w.nodes, a, b, false, &cfg, None).await {
 		Ok(l) => {
 			w.links.push(l);
